@@ -78,6 +78,12 @@ class Interp:
             self.ctx.assume(f)
         return nv
 
+    def isinstance_of(self, handle, clsname):
+        """the uninterpreted predicate "opaque object `handle` is an instance of the external class `clsname`" """
+        ids = self.registry.__dict__.setdefault("_isinst_ids", {})
+        f = z3.Function("isinstance_of", z3.IntSort(), z3.IntSort(), z3.BoolSort())
+        return f(handle, z3.IntVal(ids.setdefault(clsname, len(ids))))
+
     def write_field(self, ref: V, fname, val: V):
         owner, ty = self.field(ref.ty.cls, fname)
         val = sym.coerce(self.from_any(val, ty), ty)
@@ -394,7 +400,18 @@ class Interp:
         if ty == TAny and not self.spec:
             # data attribute of an opaque external object: an unconstrained opaque value (fresh at every read, so
             # nothing is assumed about it - not even that two reads agree); may be absent
-            if not self.ctx.branch(self.ctx.fresh_const(z3.BoolSort(), "hasattr_" + attr)):
+            # (added for C05/TLS) two refinements of "may be absent": `__class__` exists on every Python object; and the sidecar
+            # may declare R.consts["OPAQUE_HAS_ATTR"] = {attr: [external class names]} - an object that IS an instance of one
+            # of those classes (the uninterpreted isinstance_of predicate used by isinstance() on opaque values, spec form
+            # isa_opaque(x, 'Name')) has the attribute
+            present = self.ctx.fresh_const(z3.BoolSort(), "hasattr_" + attr)
+            if attr == "__class__":
+                present = z3.BoolVal(True)
+            else:
+                owners = self.registry.consts.get("OPAQUE_HAS_ATTR", {}).get(attr, [])
+                if owners:
+                    self.ctx.assume(z3.Implies(z3.Or(*[self.isinstance_of(base.t, n) for n in owners]), present))
+            if not self.ctx.branch(present):
                 raise PyRaise("AttributeError", implicit="opaque object without attribute %s" % attr, site=getattr(node, "lineno", None))
             return V(TAny, self.ctx.fresh_const(z3.IntSort(), "anyattr_" + attr))
         raise Unsupported("attribute %s of %s" % (attr, ty))
